@@ -259,3 +259,10 @@ def str_starts_with_char(ctx, args, st):
         for s2, yes in _first_is(ctx.ex, st, s, c):
             yield s2, 'ret', Bool(yes)
     return g()
+
+
+@model(r'^<String as From<.*>>::from$|^<Box<str> as From<.*>>::from$')
+def string_from_any(ctx, args, st):
+    t = st.deref_all(args[0])
+    if isinstance(t, StrV): return ret(st, t.retag('String'))
+    return None
